@@ -43,6 +43,10 @@ P = {
          'All ~380 panic-capable sites and all ~45 loops in reachable library code are individually discharged on the current tree; an undischarged site fails the check. General nil-dereference freedom, memory/stack exhaustion and user callbacks are not decided.'),
  'C20': (True, 'proof', 'order-taint analysis over go/ssa: every map range is an unordered loop whose effects must be order-insensitive; slices derived from it are followed inter-procedurally (appends, parameters, results, struct fields) to sinks that must be sort / len / range / singleton index; allow-list of reachable standard-library calls; unique-key check for the unstable sort; formatting operand types',
          'Proof modulo the trusted base: if every obligation is discharged no observable output can depend on map iteration order or on a hidden-state source, for every definition and input. Trusted: determinism of the allow-listed stdlib functions and of the compiler; package dag and the debug Logger are outside C20.'),
+ 'C17': (True, 'other', 'must-pass-through of exitFn on the COMP_LINE edge, CHA reachability (no CommandFn from the parser / completion edge), sorted-value identity at the completion returns, HasPrefix guard facts and completeness must-pass-through for every table-derived candidate',
+         'For every tree and partial line: completion always leaves through the exit path, never runs a command, returns sorted lists, and every option/command/suggestion candidate is offered iff it starts with the typed text at the level reached. Not decided: equality with the specification for value completion; acceptance of each candidate by the parser.'),
+ 'C18': (True, 'other', 'switch coverage over option.Type (typed AST), filter analysis of the option and command scans, total partition + render checks in both renderers, who-may-call of the section renderers, field-use facts in the per-option line, derived-field freshness (Synopsis() after every write of its inputs)',
+         'Structural conditions for "every option/alias/command exactly once, under the right heading, with default and env var, same text on all routes". Layout (wrapping, multi-line descriptions) is not decided.'),
 }
 NOT_YET = 'static check for this property is not built yet (work in progress; see DESIGN.md section 4 for the planned rules)'
 checks, na = [], []
